@@ -234,7 +234,8 @@ def run_template(c, work):
     keys = [f"key_{i}" for i in range(1, c["nkeys"] + 1)]
     lines = ["; a comment line", "title                    = template"]
     for i, key in enumerate(keys):
-        lines.append(f"{key:<24s} = value{i}")
+        tail = {"none": "", "value": "=500", "comment": " ; 2 * 5 = 10"}[c.get("eq_tail", "none")] if i == 0 else ""
+        lines.append(f"{key:<24s} = value{i}{tail}")
         if c["commented"] and i == 0:
             lines.append(f"; {key} = commented_out")
     if c["duplicate"] and keys:
